@@ -173,7 +173,9 @@ func runC12(c *Ctx) {
 				map[string]any{"template": lit, "got": out, "err": fmt.Sprint(err)})
 		}
 		// (c) e-mail addresses / mentions: @name whose top level is not allowed stays literal
-		name := Pick(r, []string{"nyaruka.com", "bob", "Contacts.name", "field", "x.y.z", "été.fr", "contact_", "fieldsx.age"})
+		// (incl. words that equal an allowed top level only under Unicode case folding: long s for s, dotless i for i)
+		name := Pick(r, []string{"nyaruka.com", "bob", "Contacts.name", "field", "x.y.z", "été.fr", "contact_", "fieldsx.age",
+			"field\u017f.age", "field\u017f", "FIELD\u017f.age", "Field\u017f.AGE", "f\u0131elds.age", "F\u0131ELD\u017f"})
 		mail := genPlain(r, 6) + "@" + name + Pick(r, []string{"", " ", ".", "!", ". Bye", ")"})
 		if c.Guard("M1-email", "panic:template", map[string]any{"template": mail}, func() { out, err = evalTpl(mail, ctx) }) {
 			continue
